@@ -228,6 +228,8 @@ class LookupClient(Client):
 
     def _bind(self, st, state, val):
         world, vars_, eff = state
+        if isinstance(st, ast.Assign) and val is None and isinstance(st.value, ast.Name) and st.value.id in dict(vars_):
+            val = dict(vars_)[st.value.id]        # a plain copy of what the look-up gave
         if isinstance(st, ast.Assign) and val is not None:
             for t in st.targets:
                 if isinstance(t, ast.Name):
@@ -362,6 +364,8 @@ def check_undefined(model: FsmModel, rep):
 
 
 def run(repo, rep):
+    from ..pitfalls import memo_rule as _memo_rule
+    _memo_rule(repo, rep, 'C04', 'C04.Z1')
     model = FsmModel(repo)
     rep.trust('PS3.8 Table 9-10 / Tables 9-6..9-9 as transcribed in pnd_static/oracles/ps3_8.py '
               '(cross-checked by row totals)')
